@@ -18,7 +18,8 @@ DF_FEATURES = ("load", "nested", "order")
 
 def cfg(root, k, depth, emit=False, view=True, ops=ALL_OPS, features=DF_FEATURES, blocks=2, samplek=1, maxargs=2, emit_refused=False):
     tset = lambda xs: "{" + ", ".join(f'"{x}"' for x in xs) + "}"  # noqa: E731
-    c = ["INIT Init", "NEXT NextB", f"CONSTANT RootInputs <- {root}", f"CONSTANT MaxCalls = {k}", f"CONSTANT MaxDepth = {depth}",
+    module = root == "Module"
+    c = ["INIT Init", "NEXT NextB", f"CONSTANT RootInputs <- {'RootB' if module else root}", f"CONSTANT ModuleRoot = {'TRUE' if module else 'FALSE'}", f"CONSTANT MaxCalls = {k}", f"CONSTANT MaxDepth = {depth}",
          f"CONSTANT Ops = {tset(ops)}", f"CONSTANT Features = {tset(features)}", f"CONSTANT MaxBlocks = {blocks}", f"CONSTANT SampleK = {samplek}", f"CONSTANT MaxArgs = {maxargs}",
          "INVARIANT FinishedValid", "CHECK_DEADLOCK FALSE"]
     if view:
@@ -88,7 +89,11 @@ def make_stepper(root_inputs):
     """a fresh root Dfg and a function executing one HugrBuilder event on the real builders"""
     from hugr import val
     from hugr.build.dfg import Dfg
-    d = Dfg(*[W.build_type(t) for t in root_inputs])
+    if root_inputs == "module":
+        from hugr.build.function import Module
+        d = Module()
+    else:
+        d = Dfg(*[W.build_type(t) for t in root_inputs])
     builders = {0: d}
     h = d.hugr
     handles = {}
@@ -120,6 +125,20 @@ def make_stepper(root_inputs):
         elif a == "DefineFunction":
             fb = b.define_function("f", [W.build_type(t) for t in ev["ins"]], [W.build_type(t) for t in ev["outs"]] if ev["declared"] else None)
             builders[fb.parent_node.idx] = fb
+        elif a == "DeclareFunction":
+            from hugr import tys
+            if ev["poly"]:
+                rv = tys.RowVariable(0, tys.TypeBound.Any)
+                b.declare_function("row_id", tys.PolyFuncType([tys.ListParam(tys.TypeTypeParam(tys.TypeBound.Any))], tys.FunctionType.endo([rv])))
+            else:
+                b.declare_function("decl", tys.PolyFuncType([], tys.FunctionType.endo([tys.Bool])))
+        elif a == "CallPoly":
+            from hugr import tys
+            from hugr.hugr.node_port import Node
+            ws = [wire(w) for w in ev["args"]]
+            row = [h.port_type(w) for w in ws]
+            n = b.call(Node(ev["f"]), *ws, instantiation=tys.FunctionType.endo(row), type_args=[tys.SequenceArg([t.type_arg() for t in row])])
+            handles[n.idx] = n
         elif a == "Call":
             from hugr.hugr.node_port import Node
             n = b.call(Node(ev["f"]), *[wire(w) for w in ev["args"]])
@@ -231,7 +250,7 @@ def norm_node(n):
 def run(ctx: Ctx, wd, handles_only: bool = False, only_feature: str | None = None) -> None:
     """handles_only (C16 b): only the S->C leg, only the handle counts are judged (documents are C01's business)."""
     quick = ctx.tier == "quick"
-    DF, CO, LO, FU, CF, IN, IF = DF_FEATURES, ("cond",), ("loop",), ("func",), ("cfg",), ("insert",), ("if",)
+    DF, CO, LO, FU, CF, IN, IF, DE = DF_FEATURES, ("cond",), ("loop",), ("func",), ("cfg",), ("insert",), ("if",), ("func", "decl")
 
     def C(root, k, depth, ops_, fe, sk=1, ma=2):
         return dict(root=root, k=k, depth=depth, ops=tuple(ops_), fe=tuple(fe), sk=sk, ma=ma)
@@ -248,13 +267,13 @@ def run(ctx: Ctx, wd, handles_only: bool = False, only_feature: str | None = Non
                C("RootBQ", 5, 2, ("Some", "None"), LO), C("RootBQ", 5, 2, ("Cont", "Brk", "H"), LO), C("RootBQ", 6, 3, (), LO + ("nested",), ma=1),
                C("RootBQ", 8, 3, (), CO + LO, ma=1), C("RootBQ", 6, 2, ("Not",), FU), C("RootBQ", 6, 3, ("H",), FU + ("nested",), ma=1), C("RootBQ", 7, 3, (), FU + CO, ma=1),
                C("RootBQ", 9, 2, (), CF + ("unit",)), C("RootBQ", 7, 2, ("Not", "H"), CF), C("RootBQ", 9, 2, (), CF + ("dom",)),
-               C("RootBQ", 8, 3, (), CF + ("nested", "unit"), ma=1), C("RootBQ", 5, 2, ("Not", "H"), IN), C("RootBQ", 7, 2, ("H", "Not"), IF)])
+               C("RootBQ", 8, 3, (), CF + ("nested", "unit"), ma=1), C("RootBQ", 5, 2, ("Not", "H"), IN), C("RootBQ", 7, 2, ("H", "Not"), IF), C("Module", 6, 2, ("Not", "H"), DE)])
     for c in ([] if handles_only or only_feature else m_cfgs):
         res = run_tlc("MC_HugrBuilder", cfg(c["root"], c["k"], c["depth"], ops=c["ops"], features=c["fe"], maxargs=c["ma"]), wd, workers=16, heap="10g",
                       want_lines=False, timeout=5000)
         tlc_must_hold(ctx, f"M HugrBuilder {name(c)}: Finished => Valid(Doc)", res, "HugrBuilder model")
     # ---- S->C: every distinct finished state
-    ROOTS = {"RootBQ": [{"t": "Sum", "s": "Unit", "size": 2}, {"t": "Q"}], "RootB": [{"t": "Sum", "s": "Unit", "size": 2}]}
+    ROOTS = {"RootBQ": [{"t": "Sum", "s": "Unit", "size": 2}, {"t": "Q"}], "RootB": [{"t": "Sum", "s": "Unit", "size": 2}], "Module": "module"}
     cur_root = ["RootBQ"]
     n = [0]
     feats = Counter()
@@ -275,6 +294,11 @@ def run(ctx: Ctx, wd, handles_only: bool = False, only_feature: str | None = Non
             ctx.nontriv(hist)
             if any(e["a"] == "SetOutputs" and e["args"] and nodes_parent_is_case(ln["doc"], e["ctx"]) for e in hist):
                 feats["cond-with-outputs"] += 1
+        if cur_root[0] == "Module":
+            feats["module-root"] += 1
+        if "CallPoly" in acts:
+            feats["row-poly-call"] += 1
+            ctx.nontriv(hist)
         if "DefineFunction" in acts:
             feats["func"] += 1
             if "Call" in acts:
@@ -345,13 +369,13 @@ def run(ctx: Ctx, wd, handles_only: bool = False, only_feature: str | None = Non
             ctx.sample({"builder_program": hist, "expected_edges": exp["edges"]})
     s_cfgs = ([C("RootBQ", 4, 2, ALL_OPS, DF), C("RootBQ", 7, 2, ("H",), CO), C("RootBQ", 7, 2, ("Some",), CO), C("RootBQ", 4, 2, ("Some", "Cont"), LO),
                C("RootBQ", 5, 2, ("Not", "H"), FU), C("RootBQ", 8, 2, (), CF), C("RootBQ", 7, 2, (), CF + ("unit",), sk=2), C("RootBQ", 9, 2, (), CF + ("dom",), sk=25),
-               C("RootBQ", 3, 2, ("Not",), IN), C("RootBQ", 6, 2, ("H",), IF), C("RootB", 6, 3, (), ("nested",), ma=1)] if quick else
+               C("RootBQ", 3, 2, ("Not",), IN), C("RootBQ", 6, 2, ("H",), IF), C("RootB", 6, 3, (), ("nested",), ma=1), C("Module", 5, 2, ("Not",), DE)] if quick else
               [C("RootBQ", 4, 2, ALL_OPS, DF), C("RootBQ", 7, 2, ("Not",), CO), C("RootBQ", 7, 2, ("Some",), CO), C("RootBQ", 8, 2, ("H",), CO),
                C("RootBQ", 7, 3, ("H",), CO + ("nested",), ma=1), C("RootBQ", 4, 2, ("Some", "None", "Cont", "Brk", "H"), LO), C("RootBQ", 6, 3, (), LO + ("nested",), ma=1),
                C("RootBQ", 8, 3, (), CO + LO, ma=1), C("RootBQ", 6, 2, ("Not",), FU), C("RootBQ", 7, 3, (), FU + CO, ma=1),
                C("RootBQ", 8, 2, (), CF + ("unit",)), C("RootBQ", 7, 2, ("Not", "H"), CF), C("RootBQ", 9, 2, (), CF + ("dom",), sk=2),
                C("RootBQ", 8, 3, (), CF + ("nested", "unit"), sk=4, ma=1), C("RootBQ", 4, 2, ("Not", "H"), IN), C("RootBQ", 7, 2, ("H", "Not"), IF),
-               C("RootB", 6, 3, (), ("nested",), ma=1), C("RootBQ", 6, 3, ("H",), FU + ("nested",), ma=1)])
+               C("RootB", 6, 3, (), ("nested",), ma=1), C("RootBQ", 6, 3, ("H",), FU + ("nested",), ma=1), C("Module", 6, 2, ("Not", "H"), DE)])
     if handles_only:
         s_cfgs = ([C("RootBQ", 3, 2, ALL_OPS, DF), C("RootBQ", 7, 2, ("H",), CO), C("RootBQ", 4, 2, ("Some",), LO), C("RootBQ", 8, 2, (), CF), C("RootBQ", 3, 2, ("Not",), IN)] if quick else
                   [C("RootBQ", 4, 2, ALL_OPS, DF), C("RootBQ", 7, 2, ("Some",), CO), C("RootBQ", 8, 2, ("H",), CO), C("RootBQ", 4, 2, ("Some", "None", "Cont", "Brk"), LO),
@@ -369,7 +393,7 @@ def run(ctx: Ctx, wd, handles_only: bool = False, only_feature: str | None = Non
     ctx.note("builder_model_features", dict(feats))
     need = (("insert:nestext", "insert:loop", "insert:cond", "insert:cfg") if only_feature == "insert" else ("nested", "cond", "loop", "cfg", "insert") if handles_only else
             ("nested", "cond", "cond-with-outputs", "loop", "loop-just-inputs", "call", "recursive-call", "cfg", "cfg-2-blocks", "dom-wire", "insert:nestext", "insert:loop",
-             "insert:cond", "insert:cfg", "if-else"))
+             "insert:cond", "insert:cfg", "if-else", "module-root", "row-poly-call"))
     if n[0] < 50 or not all(feats[f] for f in need):
         raise MachineryError(f"builder model: only {n[0]} finished states, features {dict(feats)}")
 
@@ -383,7 +407,8 @@ def replay_case(body) -> bool:
     case = body.get("case", {})
     if not (isinstance(case, dict) and "hist" in case and body.get("sig", {}).get("source") == "builder-model"):
         return False
-    root_inputs = [{"t": "Sum", "s": "Unit", "size": 2}, {"t": "Q"}] if body.get("sig", {}).get("root", "RootBQ") == "RootBQ" else [{"t": "Sum", "s": "Unit", "size": 2}]
+    rt = body.get("sig", {}).get("root", "RootBQ")
+    root_inputs = "module" if rt == "Module" else [{"t": "Sum", "s": "Unit", "size": 2}, {"t": "Q"}] if rt == "RootBQ" else [{"t": "Sum", "s": "Unit", "size": 2}]
     for ev in case["hist"]:
         print(ev)
     try:
